@@ -58,7 +58,7 @@ Definition pre_replace (dest : string) (s : bytes) : bytes :=
 (* XmlWriter::write_attribute(name, value): the value between the quotes *)
 Definition escape_attr (single_quote : bool) (s : bytes) : bytes :=
   xw_escape (xw_attr_escape single_quote) (pre_replace "attribute" s).
-(* write_span: xml.write_text(&cur_text.replace(..)) *)
+(* write_span: xml.write_text(&cur_text.replace(..).replace(..)): the replacements of Gen/XmlEscape.v, left to right *)
 Definition escape_text (s : bytes) : bytes := xw_escape xw_text_escape (pre_replace "text" s).
 
 Definition quote_byte (single_quote : bool) : N := if single_quote then 39 else 34.
@@ -111,8 +111,14 @@ Definition has_byte (b : N) (s : bytes) : bool := existsb (N.eqb b) s.
 (* AttValue ::= QUOTE ([^<&QUOTE] | Reference)* QUOTE   (XML 1.0, production 10) *)
 Definition attr_value_wf (single_quote : bool) (s : bytes) : bool :=
   negb (has_byte (quote_byte single_quote) s) && negb (has_byte 60 s) && amp_ok s.
-(* CharData ::= [^<&]*  interleaved with References (production 14/43; `]]>` is dealt with separately) *)
-Definition char_data_wf (s : bytes) : bool := negb (has_byte 60 s) && amp_ok s.
+(* `]]>` must not occur in character data (XML 1.0, production 14: CharData excludes the CDATA-section-close delimiter) *)
+Fixpoint has_cdata_end (s : bytes) : bool :=
+  match s with
+  | [] => false
+  | b :: r => starts_with [93; 93; 62] (b :: r) || has_cdata_end r
+  end.
+(* character data (XML 1.0 productions 14 / 43): no raw LESS-THAN, every AMPERSAND starts a reference, no CDATA-section-close delimiter *)
+Definition char_data_wf (s : bytes) : bool := negb (has_byte 60 s) && amp_ok s && negb (has_cdata_end s).
 
 (* ---------------------------------------------------------------- checkers for the correspondence (tools/props/c07.py `escape`) *)
 (* the real output continues with `expected` followed by the terminator byte *)
@@ -139,10 +145,3 @@ Definition chk_written (c : N * bool * bytes * bytes) : bool :=
   match c with (k, sq, v, rest) => if k =? 0 then chk_attr_written sq v rest else chk_text_written v rest end.
 Definition chk_roundtrip (c : N * bool * bytes * bytes) : bool :=
   match c with (k, sq, v, _) => if k =? 0 then chk_attr_roundtrip sq v else chk_text_roundtrip v end.
-
-(* `]]>` must not occur in character data (XML 1.0, production 14: CharData excludes the CDATA-section-close delimiter) *)
-Fixpoint has_cdata_end (s : bytes) : bool :=
-  match s with
-  | [] => false
-  | b :: r => starts_with [93; 93; 62] (b :: r) || has_cdata_end r
-  end.
